@@ -523,7 +523,9 @@ def check(run, repo):
     for case_no, (comps, dname, vary_T, concrete) in enumerate(fit_cases):
         I = Interp(repo)
         D = I.D
-        Tr = D.sym('Tr')
+        # reference temperatures that differ are written out (298.15 K and 0.01 K more): whether two temperatures
+        # count as the same depends on their magnitude (a relative tolerance), which a symbol does not have
+        Tr = C(Fr('298.15')) if vary_T else D.sym('Tr')
         sols = solver_model(I)
         pname = (lambda lb: None) if case_no % 2 == 0 else shared.get
         Trefs = [Tr + C(Fr(1, 100)) if vary_T and i == 1 else Tr for i in range(len(comps))]
